@@ -74,6 +74,15 @@ TARGETS = [
     dict(name="streamOffset", file="src/reader/byte_stream.rs", fn="offset", after=r"impl ByteStream",
          cfg=dict(params=[("rbegin", N), ("rend", N), ("cursor", N)], ret=N, self_fields={"offset": "cursor"},
                   exprs={"self.region.end()": "rend", "self.region.begin()": "rbegin", "self.region.size()": "(rend - rbegin)"})),
+    # ---- the manifest's masked check stream: one `read` call = (bytes asked of the source, delivered as zeros?)
+    dict(name="checkStreamStep", file="src/common/check.rs", fn="read", after=r"impl<S: Read> Read for ManifestCheckStream",
+         cfg=dict(params=[("blk", N), ("packOffset", N), ("startSafeZone", N), ("offset", N), ("bufLen", N)], ret="Nat × Bool",
+                  prelude="let zeroed := false", prelude_scope=["zeroed"], local_types={"zeroed": "Bool"},
+                  self_fields={"current_offset": "offset", "pack_offset": "packOffset", "start_safe_zone": "startSafeZone"},
+                  paths={"PACK_INFO_SIZE": "blk", "PACK_INFO_TO_CHECK": "Consts.packInfoToCheck"},
+                  exprs={"self.source.read(&buf[..size])": "size", "self.source.read(buf)": "bufLen", "buf.len()": "bufLen",
+                         "Ok(read_size)": "(read_size, zeroed)"},
+                  effects={"buf[..size].fill(0)": "let zeroed := true"})),
 ]
 
 
